@@ -273,6 +273,28 @@ func TestC13Sync(t *testing.T) {
 				if flags["remove-persisted"] || flags["remove-then-reinsert"] {
 					ntBatch = true
 				}
+				if hop == 0 && len(ops) > 0 && rapid.IntRange(0, 2).Draw(t, "fork") == 0 {
+					// a competing candidate for the same version from the same parent, committed FIRST: the same keys with
+					// other values (same tree shape, so node positions coincide); it is discarded when the main root is finalized
+					var sib mkvs.Tree
+					if prevRoot.Hash.IsEmpty() {
+						sib = mkvs.New(nil, src, rootType)
+					} else {
+						sib = mkvs.NewWithRoot(nil, src, prevRoot)
+					}
+					for _, o := range ops {
+						if o.Kind == "I" {
+							_ = sib.Insert(ctx, o.Key, append(append([]byte{}, o.Val...), 0x5a))
+						} else {
+							_ = sib.Remove(ctx, o.Key)
+						}
+					}
+					if _, sh, err := sib.Commit(ctx, kv.Namespace, v); err == nil {
+						rec.Label("competing-candidate:" + srcBackend)
+						trace = append(trace, fmt.Sprintf("v%d competing candidate %s committed first", v, sh.String()[:8]))
+					}
+					sib.Close()
+				}
 				commitLog, rh, err := tree.Commit(ctx, kv.Namespace, v)
 				if err != nil {
 					rec.Label("commit-not-accepted:" + srcBackend)
